@@ -278,7 +278,7 @@ prop('C13', level='other', units=[DF + 'epoch_df', GF + 'compute_features_2d'], 
 OB = 'bycycle.objs.fit.'
 prop('C14', level='other',
      units=[OB + 'Bycycle.fit', OB + 'BycycleBase.reduce_thresholds', OB + 'BycycleBase.__init__', CF, BGF,
-            OB + 'Bycycle.recompute_edges', OB + 'Bycycle.load'],
+            OB + 'Bycycle.recompute_edges', OB + 'Bycycle.load', OB + 'Bycycle.__getattr__'],
      jobs=['objects', 'group_2d', 'group_3d'],
      unit_jobs={BGF: ['group_2d', 'group_3d']},
      explanation='Proved: Bycycle.fit hands exactly the stored settings (the very same option objects, positionally in the right '
@@ -290,8 +290,9 @@ prop('C14', level='other',
                  'fresh object with the current settings yields" follows for every history. BycycleGroup.fit: models mirror df_features and sigs '
                  'position by position for 2-D and 3-D input (proved at group level, see C11 / C12). Bycycle.recompute_edges(r): the functional recompute_edges is called on the stored '
                  'table with the dictionary that reduce_thresholds returns - every *_threshold lowered by r, min_n_cycles unchanged, key '
-                 'by key - and its result replaces the stored table; load stores the very objects it is given. Bounded: attribute '
-                 'access and whole operation sequences (incl. refits with the same array object), BycycleGroup.recompute_edges.')
+                 'by key - and its result replaces the stored table; load stores the very objects it is given; attribute access '
+                 'returns the values of the named column, in order, and raises AttributeError for an unknown name or an unfitted object. '
+                 'Bounded: whole operation sequences (incl. refits with the same array object), BycycleGroup.recompute_edges.')
 
 prop('C15', level='other',
      units=[CF, F + 'shape.compute_shape_features', F + 'shape.compute_durations', F + 'shape.compute_extrema_voltage',
